@@ -419,7 +419,11 @@ def run_history(ctx, kind, name, hist):
            model.ro_written["b"], model.ro_written["s"],
            model.ro_written["m"], getattr(model, "base_wild", False),
            name in real.Base.__dict__.get("__class_traits__", {}),
-           name in real.Base.__base_traits__)
+           name in real.Base.__base_traits__,
+           # the instance trait tables are state too (they live outside
+           # __dict__)
+           sorted(real.b._instance_traits()), sorted(real.m._instance_traits()),
+           sorted(real.s._instance_traits()) if real.s else None)
     return True, repr(key)
 
 
